@@ -166,9 +166,32 @@ def analyse_selection(args):
             ok[s.decode()] = any(p_ == "ne" and a_.startswith("strncmp(") and repr(s.decode()) in a_ and b_ == "0" for p_, a_, b_ in lits)
         g["dominating_refusals"] = ok
     out["guards"] = g
+    out["dispatch"] = dispatch(m, info)
     txt = open(os.path.join(info["incdir"], "crypt.h")).read()
     mm = re.search(r"#define\s+CRYPT_GENSALT_IMPLEMENTS_DEFAULT_PREFIX\s+(\d+)", txt)
     out["implements_default"] = int(mm.group(1)) if mm else None
+    return out
+
+
+def dispatch(m, info):
+    """abstract interpretation of get_hashfn for the prefix of every method of hashes.conf followed by an arbitrary
+    filter-clean tail: the set of table rows (byte offsets) / NULL it can return"""
+    from .. import xai, crypt_grid as K
+    F = common.sym(m, "get_hashfn", required=False)
+    st = m.structs.get("struct.hashfn")
+    if F is None or not st:
+        return {"error": "get_hashfn or struct hashfn not found"}
+    cells = []
+    for c in c18.read_hashes_conf():
+        p = c["prefix"].encode()
+        reg = {"name": "setting", "kind": "cstr", "bytes": p.hex(), "tail": True, "prov": "setting", "tailset": K.set_hex(K.CLEAN | {0})}
+        if p == b"":
+            reg["headsets"] = [K.set_hex(K.A64), K.set_hex(K.A64)]
+        cells.append(xai.simple_cell(c["name"], F.name, [reg], [{"ptr": "setting"}]))
+    res = xai.run_cells(info["bc"], cells, {"maxPaths": 2000}, jobs=2)
+    out = {"rowsize": st["size"], "cells": {}}
+    for cid, c in res.items():
+        out["cells"][cid] = {"rets": sorted({p["ret"] for p in c["paths"]}), "alarms": sorted({a["kind"] + ":" + a["msg"] for p in c["paths"] for a in p["alarms"]})[:3], "budget": c["budget"]}
     return out
 
 
@@ -211,6 +234,7 @@ def run(chk, tier):
                  ("R-CFG-TABLE", "compiled table == enabled rows of the full build, same order and values"),
                  ("R-CFG-SAMECODE", "functions reachable from enabled rows are structurally identical to the full build"),
                  ("R-CFG-UNREACHABLE", "disabled methods' entry points unreachable unless shared, then guarded"),
+                 ("R-CFG-DISPATCH", "get_hashfn, interpreted abstractly on <prefix><any clean tail>, returns exactly the row of an enabled method and NULL for every prefix without an enabled row"),
                  ("R-CFG-GUARDS", "shared yescrypt code refuses the disabled sibling's prefix before hashing"),
                  ("R-CFG-DEFAULT", "default prefix / preferred method / header macro follow hashes.conf; C18 rules hold per selection")):
         chk.rule(r, d)
@@ -300,6 +324,24 @@ def run(chk, tier):
                     chk.fail("R-CFG-GUARDS", "%s:%s" % (tag, pfx), "selection {%s}: crypt_yescrypt_rn does not refuse the disabled prefix %s before hashing" % (",".join(sel), pfx), "lib/crypt-yescrypt.c", {"selection": sel, "guards": g})
                 else:
                     chk.ok("R-CFG-GUARDS", "%s:%s" % (tag, pfx), sample={"selection": sel, "refuses": pfx})
+        # dispatch: every enabled method's prefix selects its own row, every other prefix selects nothing
+        d = res["dispatch"]
+        if "error" in d:
+            raise AnalysisBroken("selection %s: %s" % (sname, d["error"]))
+        for c in conf:
+            cell = d["cells"].get(c["name"])
+            if cell is None or cell["budget"] or cell["alarms"]:
+                raise AnalysisBroken("selection %s: get_hashfn not analysable for %s: %s" % (sname, c["name"], cell))
+            idx = next((i for i, r in enumerate(rows) if r["prefix"] == c["prefix"]), None)
+            if c["name"] not in sel and idx is not None:
+                continue        # the prefix is shared with an enabled sibling (descrypt/bigcrypt): decided by the sibling's instance
+            want_ret = ["null"] if idx is None else ["ptr:@hash_algorithms+%d" % (idx * d["rowsize"])]
+            if cell["rets"] != want_ret:
+                what = "is enabled but its prefix %r does not select its table row" % c["prefix"] if c["name"] in sel else "is disabled but its prefix %r is not refused like an unknown one" % c["prefix"]
+                chk.fail("R-CFG-DISPATCH", "%s:%s" % (tag, c["name"]), "selection {%s}: %s %s: get_hashfn returns %s, expected %s" % (",".join(sel), c["name"], what, cell["rets"], want_ret),
+                         "lib/crypt.c", {"selection": sel})
+            else:
+                chk.ok("R-CFG-DISPATCH", "%s:%s" % (tag, c["name"]))
         # default
         dflt = next((byname[n]["prefix"] for n in names if n in sel and "DEFAULT" in byname[n]["flags"]), None)
         if (res["implements_default"] == 1) != (dflt is not None):
